@@ -67,9 +67,9 @@ def build_pool(kind, seed, n):
     return _KINDS[kind](rng, n)
 
 
-def block_cases(fname, pool, n, tag, bs=100):
+def block_cases(fname, pool, n, tag, bs=100, call='callmany'):
     """driver cases evaluating pool[0:n] on function fname in slices of bs"""
-    return [{'x': 'callmany(M, %r, %r, %d, %d)' % (fname, pool, i, min(n, i + bs)), 't': tag,
+    return [{'x': '%s(M, %r, %r, %d, %d)' % (call, fname, pool, i, min(n, i + bs)), 't': tag,
              'blk': [fname, pool, i, min(n, i + bs)]} for i in range(0, n, bs)]
 
 
